@@ -121,3 +121,44 @@ func oddTargets(rec *fw.Rec) {
 		}
 	}
 }
+
+// hostileMessages: messages (and bindings) that carry strings which look like
+// pattern variables.  Whoever can send a message can send these; processing
+// must return.  (What such a message matches is not judged here.)
+func hostileMessages(rec *fw.Rec) {
+	patterns := []string{`{"a":"?y","b":"?y"}`, `{"a":"?x","b":"?y","c":"?x"}`, `{"l":["?x"],"a":"?x"}`, `{"?k":"?v","x":"?v"}`, `{"a":"??o","b":"??o"}`, `{"a":"?x","b":"?<n"}`, `"?m"`, `{"a":{"b":"?x"},"c":"?x"}`}
+	looks := []interface{}{"?y", "?x", "?", "??o", "?<n", "?>=n", "?m", "?k", "?v", []interface{}{"?x"}, map[string]interface{}{"b": "?x"}, map[string]interface{}{"?x": "?x"}}
+	for pi, p := range patterns {
+		doc := `{"name":"hostile-messages","nodes":{"start":{"branching":{"type":"message","branches":[{"pattern":` + p + `,"target":"viaBindings"}]}},
+ "viaBindings":{"branching":{"type":"bindings","branches":[{"pattern":` + p + `,"target":"start"},{"target":"start"}]}}}}`
+		var spec core.Spec
+		if err := json.Unmarshal([]byte(doc), &spec); err != nil {
+			rec.Inconclusive("hostile messages: spec document: " + err.Error())
+			return
+		}
+		if err := spec.Compile(context.Background(), nil, true); err != nil {
+			rec.Inconclusive("hostile messages: compile: " + err.Error())
+			return
+		}
+		for li, l1 := range looks {
+			for _, l2 := range []interface{}{1.0, l1, looks[(li+1)%len(looks)]} {
+				msg := map[string]interface{}{"a": l1, "b": l2, "c": l1, "x": l2, "l": []interface{}{l1, l2}, "k": l1}
+				for _, pre := range []map[string]interface{}{{}, {"?x": "?y", "?y": "?x"}, {"?x": "?x"}, {"?y": l1, "?v": "?k", "?k": "?v"}} {
+					desc := map[string]interface{}{"pattern": p, "message": msg, "bindings": pre, "family": "strings that look like variables"}
+					rec.LogCase(0, desc)
+					ctx, cancel := context.WithTimeout(context.Background(), 5*time.Second)
+					ok := guarded(rec, "C07:hostile-message", desc, 30*time.Second, func() {
+						spec.Walk(ctx, &core.State{NodeName: "start", Bs: match.Bindings(fw.Deep(pre).(map[string]interface{}))}, []interface{}{fw.Deep(msg), fw.Deep(msg)}, nil, nil)
+					})
+					cancel()
+					if !ok {
+						return
+					}
+					rec.Eval(1)
+				}
+			}
+		}
+		_ = pi
+	}
+	rec.Bucket("messages_with_variable_lookalikes_survived")
+}
